@@ -175,8 +175,11 @@ def execute(scen):
             dev = client.get_device("SENTINEL")
             if dev is None or dev.get_vector("END") is None:
                 viol.append({"clause": "C15.alive", "detail": "a definition appended after the stream is not reflected: the client stopped processing", "facts": facts})
-        if not viol and scen["world"] in ("net", "snoop") and not scen["awkward"]:
+        one_by_one = scen["world"] == "net_blobconn" and scen["batch"] == 1 and not n_eager
+        if not viol and (scen["world"] in ("net", "snoop") or one_by_one) and not scen["awkward"]:
             # nothing was lost or invented on the way: the client applied exactly what was sent, in order
+            # (with BLOB updates on the BLOB connection the order across the two connections is only defined when every message
+            # is followed by quiescence)
             exp = sent_views + [view_of_spec(W.SENTINEL)]
             if world.applied != exp:
                 k = next((i for i, (x, y) in enumerate(zip(world.applied, exp)) if x != y), min(len(world.applied), len(exp)))
